@@ -210,10 +210,6 @@ def _ranges(V, prefix, n):
         e = V.int("%s%d_e" % (prefix, i))
         V.assume(s < e)
         out.append((s, e))
-    for accel in ("Ethos_U55_32", "Ethos_U55_64", "Ethos_U55_128", "Ethos_U55_256", "Ethos_U65_256", "Ethos_U65_512"):
-        for lut in (0, 1):
-            for kind in ("conv", "pool"):
-                out.append(dict(key="shram_writes/%s/%s/lut%d" % (accel, kind, lut), fn="shram_writes", params=dict(accel=accel, lut=lut, kind=kind)))
     return out
 
 
